@@ -119,16 +119,21 @@ WorkerStep(w) == WAcquire(w) \/ WCheckGo(w) \/ WCheckBlock(w) \/ WStop(w) \/ WPo
 ---------------------------------------------------------------------------------------
 \* caller: pool_t::map(elements, chunksize, op, raise) (include/nano/core/parallel.h)
 
-CStartArgs(c, n, ch, raise) ==
+\* Which of the two paths a call takes is the implementation's choice - the property holds on both; the code's rule is
+\* `if (size() == 1 || chunksize >= elements)` -> inline.  The model follows the code unless AnyOrder (implementation freedom the
+\* property does not constrain) is set; the trace specification accepts either path for every call.
+CStartPath(c, n, ch, raise, inl) ==
     /\ cpc[c] = "idle" /\ ccall[c] < MaxCalls /\ opc = "alive"
     /\ cargs' = [cargs EXCEPT ![c] = [n |-> n, chunk |-> ch, raise |-> raise]]
     /\ ccall' = [ccall EXCEPT ![c] = @ + 1] /\ cidx' = [cidx EXCEPT ![c] = 1] /\ cret' = [cret EXCEPT ![c] = "none"]
-    /\ IF nw = 1 \/ ch >= n                                    \* if (size() == 1 || chunksize >= elements)
+    /\ IF inl
          THEN cpc' = [cpc EXCEPT ![c] = "inline"] /\ cpath' = [cpath EXCEPT ![c] = "inline"]
          ELSE cpc' = [cpc EXCEPT ![c] = "lock"] /\ cpath' = [cpath EXCEPT ![c] = "pool"]
     /\ UNCHANGED <<nw, queue, mutex, stop, waiting, wvars, crun, done, threw, runs, ovars>>
+CStartArgs(c, n, ch, raise) == CStartPath(c, n, ch, raise, nw = 1 \/ ch >= n)
 CStart(c) == \E n \in 0..MaxElems, ch \in 1..(MaxElems + 1), raise \in BOOLEAN :
-                 ch <= n + 1 /\ CStartArgs(c, n, ch, raise)
+                 /\ ch <= n + 1
+                 /\ IF AnyOrder THEN \E inl \in BOOLEAN : CStartPath(c, n, ch, raise, inl) ELSE CStartArgs(c, n, ch, raise)
 \* inline path: the caller's thread runs every chunk with worker id 0; an exception propagates at once
 CInlineBegin(c) == /\ cpc[c] = "inline" /\ crun[c] = NoTask /\ cidx[c] \in DOMAIN TasksOf(c)
                    /\ crun' = [crun EXCEPT ![c] = TasksOf(c)[cidx[c]]] /\ runs' = Bump(TasksOf(c)[cidx[c]])
